@@ -39,14 +39,17 @@ SPEC = dict(
 TEXT = dict(
     engine="verifkv-processes",
     design_ref="DESIGN.md §4 C04, §3 D",
-    technique="fault-injected concurrent histories against real multi-process clusters (plans drawn with rapid; kill -9, SIGTERM, restart, leader transfer, SIGSTOP/SIGCONT), "
+    technique="fault-injected concurrent histories against real multi-process clusters (plans drawn with rapid; kill -9 aimed at in-flight writes, SIGTERM, restart, leader transfer, SIGSTOP/SIGCONT), "
               "checked per key for linearizability with porcupine against a sequential model of the command set (operations of unknown outcome open-ended, the final value as a last read), "
-              "plus exactly-once accounting of uniquely tagged effects and equality of the logical dumps of all replicas after settling",
-    level_text="Exploration with fault injection: each tier records a fixed number of histories (quick 16, thorough 330) and every completed history must linearize, account for every "
-               "acknowledged write exactly once and leave identical replicas. The schedule inside a history is the operating system's, not the harness's. No absence claim; this is the weakest "
-               "kind of evidence in the suite and is labelled so.",
-    level_note="Trusted: the monotonic clock of the test process, porcupine's search, the sequential model (cross-checked by a deterministic self-test of the checker on hand-written good and bad histories). "
-               "Out of reach: schedules the OS does not produce, power-loss (kill -9 keeps the page cache; see C05/C06), network partitions other than a stopped process, membership changes. "
-               "Locally answered replies (reads, negative replies of the two-stage commands) are excluded by construction because the code serves them without a quorum round. "
-               "Histories that do not settle or exceed the checker's time limit are counted as inconclusive in evidence, not passed.",
+              "plus exactly-once accounting of uniquely tagged effects, a same-connection visibility rule for acknowledged SETs, and equality of the logical dumps of all replicas after settling",
+    level_text="Exploration with fault injection: each tier records a fixed number of histories (quick 16, thorough 330: 225 on 3 replicas, 70 on 5 replicas, 35 on the rocksdb engine) and every completed history "
+               "must linearize, account for every acknowledged write exactly once and leave identical replicas. The schedule inside a history is the operating system's, not the harness's. "
+               "No absence claim; this is the weakest kind of evidence in the suite and is labelled so.",
+    level_note="Trusted: the monotonic clock of the test process, porcupine's search, the sequential model and the checker's inferences about operations of unknown outcome (all cross-checked by a deterministic "
+               "self-test of the checker on about fifty hand-written good and bad histories). Out of reach: schedules the OS does not produce, power loss (kill -9 keeps the page cache; see C05/C06), "
+               "network partitions other than a stopped process, membership changes. Locally answered replies (reads, negative replies of the two-stage commands) are excluded from the linearizability check "
+               "because the code serves them without a quorum round. Histories that do not settle or exceed the checker's time limit are counted as inconclusive in evidence, not passed. "
+               "One open known finding (C04-checkpoint-not-frozen, same root cause as C06-checkpoint-cut-after-apply-resumed) was found by this check on the unchanged tree under machine load: a failing history "
+               "that contains its trigger (a restored checkpoint that took longer than its 20 ms 'frozen' signal, read from the replicas' logs) is set aside and counted as excluded_by_known_finding; "
+               "the deterministic engine-level probe TestKnownCheckpointNotFrozen reports it on every run.",
 )
